@@ -133,8 +133,43 @@ def subtype_guess(a, b):
     return False
 
 
+def edge_templates():
+    """results that come from the 'other' source of an operator: the initial value of a reduce over an
+    empty iterator, the unit of a built-in reducer, the missing else, the arm of another type"""
+    I = lambda n: ("i", n)
+    V = lambda x: ("id", x)
+    out = []
+    inits = [(("s", "none"), multi(INT, STR)), (("unit",), ANY), (("f", 1.5), multi(INT, FLOAT)), (I(0), INT), (("array", [I(1)]), multi(INT, arr(INT)))]
+    sources = [("repeat", I(0), I(0)), ("array", []), ("array", [I(4)]), ("array", [I(4), I(5)]),
+               ("slice", ("array", [I(1), I(2)]), I(5), None, None)]
+    for init, acc_t in inits:
+        for srcv in sources:
+            f = ("fn", [("acc", acc_t), ("x", INT)], INT, [("return", V("x"))])
+            out.append([("set", "r", ("reduce", ("post", "iter", srcv), init, f)), V("r")])
+            # the same inside a function, through a parameter (nothing folds), result bound and returned
+            out.append([("fndecl", "g", [("a", arr(INT))], ANY, [("set", "r", ("reduce", ("post", "iter", V("a")), init, f)), ("return", V("r"))]),
+                        ("tuple", [("call", V("g"), [("repeat", I(0), I(0))]), ("call", V("g"), [("array", [I(9)])])])])
+            # an exhausted iterator reduced a second time
+            out.append([("set", "it", ("post", "iter", srcv)), ("set", "r0", ("post", "collect", V("it"))),
+                        ("set", "r", ("reduce", V("it"), init, f)), ("tuple", [V("r0"), V("r")])])
+    for op in ("sum", "product", "all", "any", "bitand", "bitor", "collect"):
+        for srcv in sources[:3]:
+            e = srcv if op not in ("all", "any") else ("repeat", ("true",), I(0))
+            out.append([("fndecl", "g", [("a", arr(INT) if op not in ("all", "any") else arr(BOOL))], ANY, [("return", ("post", op, ("post", "iter", V("a"))))]),
+                        ("call", V("g"), [e])])
+    for c in (("true",), ("false",)):
+        out.append([("fndecl", "hb", [("v", BOOL)], BOOL, [("return", V("v"))]), ("set", "r", ("if", ("call", V("hb"), [c]), ("block", [I(1)]), None)), V("r")])
+        out.append([("fndecl", "hb", [("v", BOOL)], BOOL, [("return", V("v"))]),
+                    ("set", "r", ("if", ("call", V("hb"), [c]), ("block", [I(1)]), ("block", [("s", "x")]))), V("r")])
+    return out
+
+
 def run(res, tier, seed, broken_model):
     rnd = random.Random(seed)
+    erecs = P.run_programs(edge_templates(), broken_model=broken_model)
+    res.streams["edge-results"] = dict(programs=len(erecs))
+    progprop.judge(res, erecs, broken_model, label="edge")
+    monitor_oracle(res, erecs, "edge")
     feats = dict(mark=0.15)
     recs, good = progprop.stream(res, tier, seed, broken_model, 600, 20000, features=feats, label="programs", depth=3)
     monitor_oracle(res, recs, "programs")
